@@ -248,10 +248,39 @@ class Interp:
         wm = {q: w[i % len(w)] for i, q in enumerate(self.qids)}
         return self.register.define_detuning_map(wm)
 
+    def resolve(self, op: dict) -> dict:
+        """Replaces expression specs by Parametrized objects (symbolic mode) or
+        by their value under self.values (direct mode)."""
+        if not has_expr(op):
+            return op
+        envv = self.vars if self.values is None else self.values
+        sym = self.values is None
+
+        def walk(x):
+            if isinstance(x, dict):
+                if "var" in x or "fn" in x or "cast" in x:
+                    return ev_expr(x, envv, sym)
+                return {k: walk(v) for k, v in x.items()}
+            if isinstance(x, list):
+                return [walk(v) for v in x]
+            return x
+
+        return {k: (walk(v) if k not in ("op", "style") else v) for k, v in op.items()}
+
+    values = None  # name -> plain value: evaluate expressions directly
+
     def call(self, op: dict):
         """Returns (method_name, args, kwargs) for one op record."""
+        op = self.resolve(op)
         o = op["op"]
         kwstyle = op.get("style") == "kw"
+        if o == "declare_var":
+            kw = {}
+            if op.get("size") is not None:
+                kw["size"] = op["size"]
+            if op.get("dtype") == "int":
+                kw["dtype"] = int
+            return "declare_variable", (op["name"],), kw
         if o == "declare":
             it = op.get("initial_target")
             if it is not None:
@@ -399,9 +428,11 @@ class Interp:
         except Exception as e:  # constructing the argument failed (bad pulse...)
             return ("raised_arg", e)
         try:
-            getattr(seq, name)(*args, **kwargs)
+            res = getattr(seq, name)(*args, **kwargs)
         except Exception as e:  # noqa: BLE001 - outcome, judged by the caller
             return ("raised", e)
+        if name == "declare_variable":
+            self.vars[op["name"]] = res
         return ("ok", None)
 
 
@@ -412,3 +443,67 @@ def run_program(prog: dict):
     for op in prog["ops"]:
         out.append(it.apply(op)[0])
     return it, out
+
+
+# ------------------------------------------------------------------ variables
+import math as _math  # noqa: E402
+
+_UN = {
+    "neg": lambda a: -a, "abs": abs, "ceil": None, "floor": None, "round": round,
+}
+
+
+def _np_fn(name):
+    import numpy as _np
+
+    return {"sqrt": _np.sqrt, "exp": _np.exp, "log": _np.log, "log2": _np.log2,
+            "sin": _np.sin, "cos": _np.cos, "tan": _np.tan, "tanh": _np.tanh,
+            "ceil": _np.ceil, "floor": _np.floor}[name]
+
+
+def ev_expr(e, env_, symbolic: bool):
+    """Evaluates an expression spec. symbolic=True builds a pulser Parametrized
+    from declared variables (env_: name -> Variable/VariableItem); symbolic=False
+    computes the plain value (env_: name -> number or list)."""
+    if isinstance(e, list):
+        return [ev_expr(x, env_, symbolic) for x in e]
+    if not isinstance(e, dict):
+        return e
+    if "var" in e:
+        v = env_[e["var"]]
+        if e.get("idx") is not None:
+            v = v[e["idx"]]
+        return v
+    if "cast" in e:
+        a = ev_expr(e["a"], env_, symbolic)
+        return a if symbolic else (int(a) if e["cast"] == "int" else float(a))
+    f = e["fn"]
+    a = ev_expr(e["a"], env_, symbolic)
+    if "b" in e:
+        b = ev_expr(e["b"], env_, symbolic)
+        if e.get("swap"):
+            a, b = b, a
+        return {
+            "add": lambda: a + b, "sub": lambda: a - b, "mul": lambda: a * b,
+            "div": lambda: a / b, "floordiv": lambda: a // b,
+            "mod": lambda: a % b, "pow": lambda: a ** b,
+        }[f]()
+    if f == "neg":
+        return -a
+    if f == "abs":
+        return abs(a)
+    if f == "round":
+        return round(a)
+    if symbolic or not isinstance(a, (int, float)):
+        import numpy as _np
+
+        return getattr(_np, f)(a)
+    return float(_np_fn(f)(a))
+
+
+def has_expr(x) -> bool:
+    if isinstance(x, dict):
+        return ("var" in x) or ("fn" in x) or ("cast" in x) or any(has_expr(v) for v in x.values())
+    if isinstance(x, list):
+        return any(has_expr(v) for v in x)
+    return False
